@@ -5,11 +5,15 @@
 //
 //	metrics jwin <from> <to> <start:end:ip.ip...;...>   hand-built journal (real sketches, chosen timestamps)
 //	metrics jwrite <k> <a<tick>.<ip>,f<tick>,...>        real ClusterWriter driven in real time on a tick grid
+//	metrics jkey <k1>.<k2> <ip.ip...>                    what a chunk stores: the sketch of HMAC-SHA3-256(key, address), nothing else
 package main
 
 import (
 	"bytes"
+	"crypto/hmac"
+	"encoding/binary"
 	"encoding/json"
+	"hash"
 	"fmt"
 	"strconv"
 	"strings"
@@ -18,6 +22,8 @@ import (
 	"git.torproject.org/pluggable-transports/snowflake.git/v2/common/ipsetsink"
 	"git.torproject.org/pluggable-transports/snowflake.git/v2/common/ipsetsink/sinkcluster"
 	"git.torproject.org/pluggable-transports/snowflake.git/v2/zz_verif/wire"
+	"github.com/clarkduvall/hyperloglog"
+	"golang.org/x/crypto/sha3"
 )
 
 var epoch = time.Date(2022, 5, 30, 14, 0, 0, 0, time.UTC)
@@ -176,8 +182,103 @@ func jwrite(args []string) string {
 	return "!timing"
 }
 
+type h64 uint64
+
+func (h h64) Sum64() uint64 { return uint64(h) }
+
+// refSketch is the reference: a HyperLogLog++ (p=18) over the first 8 bytes of HMAC-SHA3-256(key, address),
+// computed here independently of common/ipsetsink.
+func refSketch(key string, ips []string) *hyperloglog.HyperLogLogPlus {
+	r, _ := hyperloglog.NewPlus(18)
+	for _, ip := range ips {
+		m := hmac.New(func() hash.Hash { return sha3.New256() }, []byte(key))
+		m.Write([]byte(ip))
+		r.Add(h64(binary.BigEndian.Uint64(m.Sum(nil)[:8])))
+	}
+	return r
+}
+
+// unionCount merges a recorded sketch with a reference sketch and returns the merged distinct count
+// (exact for the small sets used here: the sparse representation keeps 25-bit-plus hash prefixes).
+func unionCount(recorded []byte, ref *hyperloglog.HyperLogLogPlus) (uint64, error) {
+	a, _ := hyperloglog.NewPlus(18)
+	if err := a.GobDecode(recorded); err != nil {
+		return 0, err
+	}
+	u, _ := hyperloglog.NewPlus(18)
+	if err := u.Merge(a); err != nil {
+		return 0, err
+	}
+	if err := u.Merge(ref); err != nil {
+		return 0, err
+	}
+	return u.Count(), nil
+}
+
+func jkey(args []string) string {
+	ks := strings.Split(args[0], ".")
+	if len(ks) != 2 {
+		return "!badcase"
+	}
+	k1, k2 := "verif-key-"+ks[0], "verif-key-"+ks[1]
+	var ips []string
+	seen := map[string]bool{}
+	if args[1] != "-" {
+		for _, t := range strings.Split(args[1], ".") {
+			ip := ipString(t)
+			ips = append(ips, ip)
+			seen[ip] = true
+		}
+	}
+	n := uint64(len(seen))
+	// through the real writer: what lands in the journal
+	out := &syncBuf{}
+	w := sinkcluster.NewClusterWriter(out, time.Hour, ipsetsink.NewIPSetSink(k1))
+	for _, ip := range ips {
+		w.AddIPToSet(ip)
+	}
+	w.WriteIPSetToDisk()
+	line := strings.TrimSpace(out.String())
+	var generic map[string]json.RawMessage
+	if err := json.Unmarshal([]byte(line), &generic); err != nil {
+		return "!journal " + err.Error()
+	}
+	shape := "sketch-only"
+	for k := range generic {
+		if k != "recordingStart" && k != "recordingEnd" && k != "recorded" {
+			shape = "extra-field"
+		}
+	}
+	for ip := range seen {
+		if strings.Contains(line, ip) {
+			shape = "raw-address"
+		}
+	}
+	var e sinkcluster.SinkEntry
+	if err := json.Unmarshal([]byte(line), &e); err != nil {
+		return "!journal " + err.Error()
+	}
+	own, err := unionCount(e.Recorded, refSketch(k1, ips))
+	if err != nil {
+		return "!sketch " + err.Error()
+	}
+	other, err := unionCount(e.Recorded, refSketch(k2, ips))
+	if err != nil {
+		return "!sketch " + err.Error()
+	}
+	raw, err := unionCount(e.Recorded, refSketch("", ips))
+	if err != nil {
+		return "!sketch " + err.Error()
+	}
+	// merged with the reference under the same key nothing new appears; under another key everything is new
+	return fmt.Sprintf("journal=%s n=%d own=%d other=%d nokey=%d", shape, n, own, other, raw)
+}
+
 func main() {
 	wire.Loop(func(a []string) string {
+		if len(a) == 3 && a[0] == "jkey" {
+			return jkey(a[1:])
+		}
 		if len(a) == 4 && a[0] == "jwin" {
 			return jwin(a[1:])
 		}
